@@ -209,8 +209,13 @@ def run_case(case, ctx):
             finally:
                 cur[0] -= 1
 
+    class FalsyL(L):
+        """a listener object that is falsy (e.g. a recording listener with __len__): identity, not truthiness, matters"""
+        def __len__(self):
+            return 0
+
     cur = [0]
-    ls = [L(i) for i in range(case["nl"])]
+    ls = [(FalsyL if (i + n) % 3 == 0 else L)(i) for i in range(case["nl"])]
     model = _Model(case)
     for opi, a in enumerate(case["ops"]):
         mark = len(log)
